@@ -3,7 +3,8 @@
    invariant of the data collection, which implies C06's `Inv`) is in C06/Lemmas.v; max_undo / stack_keep are
    regenerated from glue/core/command.py into gen/Gen_command.v on every check. *)
 From Coq Require Import ZArith List Bool.
-From GV Require Import C06.Model C06.Lemmas gen.Gen_command C13.Model C13.Spec C13.Lemmas C13.Examples.
+From GV Require Import C06.Model C06.Lemmas gen.Gen_command gen.Gen_cmdstack C13.Model C13.Spec C13.Lemmas C13.Examples.
+From GV Require Import Common.PyInt.
 Import ListNotations.
 Open Scope Z_scope.
 
@@ -12,12 +13,12 @@ Theorem stack_bounds : forall b ed m ops,
   let s := srun (start b ed m) ops in
   (length (cmds s) <= Z.to_nat max_undo)%nat /\
   (length (cmds s) + length (undone s) <= Z.to_nat max_undo)%nat.
-Proof. exact Lemmas.stack_bounds. Qed.
+Proof. exact Lemmas3.stack_bounds. Qed.
 Print Assumptions stack_bounds.
 
 (* a new command clears the redo history *)
 Theorem do_clears_redo : forall c s, undone (stack_do c s) = [].
-Proof. exact Lemmas.do_clears_redo. Qed.
+Proof. exact Lemmas3.do_clears_redo. Qed.
 Print Assumptions do_clears_redo.
 
 (* undoing the command just executed gives back exactly the observable state it found: the same datasets, the same
@@ -25,21 +26,21 @@ Print Assumptions do_clears_redo.
    whose collection satisfies the C06 invariant (and that invariant still holds afterwards) *)
 Theorem undo_inverts_do : forall c s, Core (base s) ->
   same_obs (stack_undo (stack_do c s)) s /\ Core (base (stack_undo (stack_do c s))).
-Proof. exact Lemmas.undo_inverts_do. Qed.
+Proof. exact Lemmas3.undo_inverts_do. Qed.
 Print Assumptions undo_inverts_do.
 
 (* redoing it gives back the observable state it had produced, up to the identity of a group the command creates
    (obs_eq: datasets, selections in order, edit choice by position) *)
 Theorem redo_inverts_undo : forall c s, Core (base s) ->
   obs_eq (stack_redo (stack_undo (stack_do c s))) (stack_do c s).
-Proof. exact Lemmas.redo_inverts_undo. Qed.
+Proof. exact Lemmas3.redo_inverts_undo. Qed.
 Print Assumptions redo_inverts_undo.
 
 (* any depth of interleaving: after ANY sequence of do / undo / redo (truncation of the stack included) the session
    is related to its undo stack by Chain, and the collection invariant of C06 holds *)
 Theorem history_chain : forall b ed m ops, Core b ->
   let s := srun (start b ed m) ops in Core (base s) /\ Chain (cmds s) s.
-Proof. exact Lemmas.history_chain. Qed.
+Proof. exact Lemmas3.history_chain. Qed.
 Print Assumptions history_chain.
 
 (* hence, after any history, the next undo leads to a state that looks exactly like the one the undone command had
@@ -49,11 +50,69 @@ Theorem undo_after_history : forall b ed m ops c mm rest, Core b ->
   cmds s = (c, mm) :: rest ->
   exists sp, Core (base sp) /\ Chain rest sp /\ snd (cmd_do c sp) = mm /\
              same_obs s (fst (cmd_do c sp)) /\ same_obs (stack_undo s) sp.
-Proof. exact Lemmas.undo_after_history. Qed.
+Proof. exact Lemmas3.undo_after_history. Qed.
 Print Assumptions undo_after_history.
+
+(* the session after any history looks -- up to the renaming of the groups that commands create, which obs_eq abstracts
+   from -- like the replay, from the start state, of the commands that the bound has cut off (`forgotten`, computed next to
+   the run: what CommandStack.do's slice drops at each do) followed by the commands on the undo stack, oldest first *)
+Theorem history_replay : forall b ed m ops, Core b ->
+  let s0 := start b ed m in
+  let s := srun s0 ops in
+  obs_eq s (replay s0 (forgotten s0 ops [] ++ rev (map fst (cmds s)))).
+Proof. exact Lemmas4.history_replay. Qed.
+Print Assumptions history_replay.
+
+(* nothing is cut off by a do that finds fewer than stack_keep commands on the stack *)
+Theorem dropped_none : forall s c, (length (cmds s) < Z.to_nat stack_keep)%nat -> dropped s c = [].
+Proof. exact Lemmas4.dropped_none. Qed.
+Print Assumptions dropped_none.
+
+(* the stack bookkeeping of the model IS the text that is translated from CommandStack.do/undo/redo on every run
+   (gen/Gen_cmdstack.v), read with the most recent command first: same stacks after every call, IndexError exactly on an
+   empty stack, and the one method called on the command is `do` for do and redo, `undo` for undo *)
+Theorem stack_refines_generated : forall (code : cmd -> Z) (s : sess) (o : sop),
+  let (pc, pu) := py_stacks code s in
+  let (pc', pu') := py_stacks code (sstep s o) in
+  match o with
+  | Do c => cs_do pc pu (code c) = Ok (pc', pu', [EDo (code c)])
+  | Undo => match cmds s with
+            | [] => cs_undo pc pu = Err IndexError /\ sstep s o = s /\ sop_status s o = 3
+            | (c, _) :: _ => cs_undo pc pu = Ok (pc', pu', [EUndo (code c)])
+            end
+  | Redo => match undone s with
+            | [] => cs_redo pc pu = Err IndexError /\ sstep s o = s /\ sop_status s o = 3
+            | (c, _) :: _ => cs_redo pc pu = Ok (pc', pu', [EDo (code c)])
+            end
+  end.
+Proof. exact Lemmas5.stack_refines_generated. Qed.
+Print Assumptions stack_refines_generated.
+
+(* and the translated text itself keeps both stacks together within MAX_UNDO for every call sequence (StackProof.v) *)
+Theorem generated_stack_bound : forall ops : list cs_op,
+  let st := cs_run ops ([], []) in (length (fst st) + length (snd st) <= Z.to_nat MAX_UNDO)%nat.
+Proof. exact Lemmas5.generated_stack_bound. Qed.
+Print Assumptions generated_stack_bound.
+
+(* on the translated text: redo after undo, undo after redo and undo after do give back the same two stacks, calling
+   exactly one method of exactly that command (StackProof.v) *)
+Theorem generated_redo_after_undo : forall (cmds undone : list Z) (c : Z),
+  cs_step (fst (cs_step (cmds ++ [c], undone) OpUndo)) OpRedo = ((cmds ++ [c], undone), [EDo c]).
+Proof. exact StackProof.cs_redo_after_undo. Qed.
+Print Assumptions generated_redo_after_undo.
+
+Theorem generated_undo_after_redo : forall (cmds undone : list Z) (c : Z),
+  cs_step (fst (cs_step (cmds, undone ++ [c]) OpRedo)) OpUndo = ((cmds, undone ++ [c]), [EUndo c]).
+Proof. exact StackProof.cs_undo_after_redo. Qed.
+Print Assumptions generated_undo_after_redo.
+
+Theorem generated_undo_after_do : forall (cmds undone : list Z) (c : Z), (length cmds < Z.to_nat MAX_UNDO)%nat ->
+  cs_step (fst (cs_step (cmds, undone) (OpDo c))) OpUndo = ((cmds, [c]), [EUndo c]).
+Proof. exact StackProof.cs_undo_after_do. Qed.
+Print Assumptions generated_undo_after_do.
 
 (* the "undoing and redoing" part of C06: its property holds after every session history over a reachable collection *)
 Theorem collection_invariant_through_history : forall pool ncol pre ed m ops,
   Inv (base (srun (start (run (init pool ncol) pre) ed m) ops)).
-Proof. exact Lemmas.collection_invariant_through_history. Qed.
+Proof. exact Lemmas3.collection_invariant_through_history. Qed.
 Print Assumptions collection_invariant_through_history.
